@@ -68,9 +68,9 @@ func c10GenNode(t *rapid.T, depth int, budget *int) C10Node {
 	}
 	n.H = c10Len(t, "h", []string{"", "", "", "", "", "0", "10px", "40px"})
 	if len(n.Kids) == 0 {
-		n.H = c10Len(t, "hleaf", []string{"", "0", "10px", "40px", "20px", "25px", "10px", "40px"})
-		n.MinH = c10Len(t, "minh", []string{"", "", "", "", "15px", "60px"})
-		n.MaxH = c10Len(t, "maxh", []string{"", "", "", "", "5px", "30px"})
+		n.H = c10Len(t, "hleaf", []string{"", "0", "10px", "40px", "20px", "25px", "10px", "40px", "50%", "150%"})
+		n.MinH = c10Len(t, "minh", []string{"", "", "", "", "15px", "60px", "50%"})
+		n.MaxH = c10Len(t, "maxh", []string{"", "", "", "", "5px", "30px", "50%", "10%"})
 	}
 	return n
 }
@@ -165,7 +165,10 @@ type c10Ref struct {
 	explicitH         float64
 	minH, maxH        float64
 	hasMaxH, hasExplH bool
-	bl, br, bt, bb    float64
+	// content height of the containing block, when it is specified explicitly
+	cbH            float64
+	cbHSet         bool
+	bl, br, bt, bb float64
 }
 
 // c10Resolve: value of a length / percentage text; auto and "" reported through the flags.
@@ -295,17 +298,27 @@ func (r *c10Ref) horizontal(cw, x0 float64) {
 	if n.BorderBox {
 		vextra = r.pt + r.pb + r.bt + r.bb
 	}
-	if v, auto, none := c10Resolve(n.H, 0); !auto && !none {
+	// CSS 2.1 10.5 / 10.7: a percentage refers to the height of the containing block; when that height is
+	// not specified explicitly, a percentage height is auto, a percentage min-height 0, a percentage max-height none
+	pct := func(text string) bool { return strings.HasSuffix(text, "%") }
+	if v, auto, none := c10Resolve(n.H, r.cbH); !auto && !none && !(pct(n.H) && !r.cbHSet) {
 		r.hasExplH, r.explicitH = true, math.Max(0, v-vextra)
 	}
-	if v, _, none := c10Resolve(n.MinH, 0); !none {
+	if v, _, none := c10Resolve(n.MinH, r.cbH); !none && !(pct(n.MinH) && !r.cbHSet) {
 		r.minH = math.Max(0, v-vextra)
 	}
-	if v, _, none := c10Resolve(n.MaxH, 0); !none {
+	if v, _, none := c10Resolve(n.MaxH, r.cbH); !none && !(pct(n.MaxH) && !r.cbHSet) {
 		r.hasMaxH, r.maxH = true, math.Max(0, v-vextra)
 	}
+	if pct(n.H) || pct(n.MinH) || pct(n.MaxH) {
+		if r.cbHSet {
+			r.cases = append(r.cases, "percent-height-resolved")
+		} else {
+			r.cases = append(r.cases, "percent-height-of-auto")
+		}
+	}
 	for i := range n.Kids {
-		k := &c10Ref{n: &n.Kids[i]}
+		k := &c10Ref{n: &n.Kids[i], cbH: r.explicitH, cbHSet: r.hasExplH}
 		k.horizontal(r.width, r.x+r.bl+r.pl)
 		r.kids = append(r.kids, k)
 	}
